@@ -52,6 +52,21 @@ class ClaimRule(Rule):
     alloc_may_fail = False
     track_pc = True
 
+    def __init__(self):
+        self.narrowed = []
+
+    def on_narrow(self, it, st, v, node, from_type, to_type):
+        # a claim value, the clock or a leeway that loses its upper bits compares as a different number
+        def mentions(k):
+            if isinstance(k, tuple) and k:
+                if k[0] == 'json_int' or (k[0] in ('api', 'call') and len(k) > 1 and k[1] == 'time') or \
+                        (k[0] == 'mem' and len(k) > 2 and k[2] in ('c.exp', 'c.nbf')):
+                    return True
+                return any(mentions(x) for x in k)
+            return False
+        if mentions(vkey(v)):
+            self.narrowed.append((node_loc(node), from_type, to_type, it.frames[-1] if it.frames else '?'))
+
     def keep_event(self, ev):
         return False
 
@@ -117,6 +132,12 @@ def check_time_claims(chk, prog, env, model):
         bit = env.claim[cname]
         member = cname.lower()
         it, res, ck = run_claims(prog, env, model, bit)
+        for (f_, l_), ft, tt, fn_ in sorted(set(it.rule.narrowed)):
+            total += 1
+            bad += 1
+            chk.add(Finding('C04.time-claims', f_ or UNIT, fn_, 'narrowed[%s]' % cname,
+                            'on the way to the %s comparison a claim value / the clock / the leeway is converted from %s to %s: values beyond '
+                            'that type compare as different numbers' % (cname, ft, tt), line=l_))
         v = ('term', ('json_int', ('term', ('json_get', vkey(Ref(('obj', 'token_claims'))), member))))
         lw = ('term', ('mem', ck, 'c.' + member))
         seen = set()
